@@ -224,6 +224,23 @@ fn check<const N: usize>(case: &Case, obs: &mut Obs) -> PropResult {
 			two_segments = true;
 		}
 	}
+	// method descriptors whose array types add up to far more than 255 dimensions (every single type stays within the limit),
+	// and with as many parameters as the format allows
+	if let Some(first) = descs.first().cloned() {
+		let el = first.trim_start_matches('[').to_string();
+		for md in [
+			format!("({}){}", format!("[[[[{el}").repeat(64), format!("[[{el}")),
+			format!("({}{}{})V", format!("{}{el}", "[".repeat(255)), format!("[{el}"), format!("{}I", "[".repeat(255))),
+			format!("({}){}", format!("[{el}").repeat(255), format!("{}{el}", "[".repeat(255))),
+		] {
+			let exp_md = reference.map_desc(&md);
+			let got_md = rb.map_method_desc(&MethodDescriptor::try_from(js(&md)).map_err(|e| format!("harness: {e:#}"))?).map_err(|e| format!("map_method_desc of a descriptor with {} array dimensions in total failed: {e:#}", md.matches('[').count()))?;
+			if got_md.as_inner() != exp_md.as_str() {
+				return Err(format!("map_method_desc({md}) = {:?}, expected {exp_md}", got_md.as_inner()));
+			}
+		}
+		obs.label("method_descriptor_with_>255_array_dimensions_in_total");
+	}
 	let void = ra.map_return_desc(&ReturnDescriptor::try_from(js("V")).unwrap()).map_err(|e| format!("{e:#}"))?;
 	if void.as_inner() != "V" {
 		return Err("map_return_desc(V) changed".into());
@@ -322,6 +339,61 @@ fn check<const N: usize>(case: &Case, obs: &mut Obs) -> PropResult {
 				case.inh
 			));
 		}
+	}
+
+	// --- history on one remapper: a member that has no mapping, asked first, must not change the answer for a mapped member
+	// asked afterwards - in particular not for one whose owner + name read the same when written one after the other
+	// (`a` + `bc` / `ab` + `c`); and asking everything a second time gives the same answers
+	{
+		let ask = |owner: &str, is_method: bool, name: &str, desc: &str| -> Option<Result<(String, String), String>> {
+			let on = class_name(owner).ok()?;
+			if is_method {
+				let n = MethodName::try_from(js(name)).ok()?;
+				let d = MethodDescriptor::try_from(js(desc)).ok()?;
+				Some(rb.map_method(&on, &n, &d).map(|r| (r.name.as_inner().as_str().unwrap().to_string(), r.desc.as_inner().as_str().unwrap().to_string())).map_err(|e| format!("{e:#}")))
+			} else {
+				let n = FieldName::try_from(js(name)).ok()?;
+				let d = FieldDescriptor::try_from(js(desc)).ok()?;
+				Some(rb.map_field(&on, &n, &d).map(|r| (r.name.as_inner().as_str().unwrap().to_string(), r.desc.as_inner().as_str().unwrap().to_string())).map_err(|e| format!("{e:#}")))
+			}
+		};
+		let mut confusable = 0;
+		for owner in owners.iter().take(12) {
+			for (is_method, name, desc) in members.iter().take(12) {
+				let expect = |o: &str, n: &str| {
+					let (dfs, bfs) = (reference.map_member(o, n, desc, *is_method, Search::Dfs), reference.map_member(o, n, desc, *is_method, Search::Bfs));
+					(dfs, bfs)
+				};
+				let oc: Vec<char> = owner.chars().collect();
+				let nc: Vec<char> = name.chars().collect();
+				let mut splits: Vec<(String, String)> = Vec::new();
+				if oc.len() >= 2 {
+					splits.push((oc[..oc.len() - 1].iter().collect(), format!("{}{name}", oc[oc.len() - 1])));
+				}
+				if nc.len() >= 2 && !name.starts_with('<') {
+					splits.push((format!("{owner}{}", nc[0]), nc[1..].iter().collect()));
+				}
+				for (o2, n2) in splits {
+					let Some(first) = ask(&o2, *is_method, &n2, desc) else { continue };
+					let (d2, b2) = expect(&o2, &n2);
+					match first {
+						Ok(g) if g == d2 || g == b2 => {}
+						Ok(g) => return Err(format!("map_{}({o2}, {n2}, {desc}) = {g:?}, expected {d2:?}", if *is_method { "method" } else { "field" })),
+						Err(e) => return Err(format!("map_{}({o2}, {n2}, {desc}) failed: {e}", if *is_method { "method" } else { "field" })),
+					}
+					if let Some(r) = ask(owner, *is_method, name, desc) {
+						let (d1, b1) = expect(owner, name);
+						match r {
+							Ok(g) if g == d1 || g == b1 => {}
+							Ok(g) => return Err(format!("after asking for ({o2}, {n2}), map_{}({owner}, {name}, {desc}) = {g:?}, expected {d1:?}", if *is_method { "method" } else { "field" })),
+							Err(e) => return Err(format!("after asking for ({o2}, {n2}), map_{}({owner}, {name}, {desc}) failed: {e}", if *is_method { "method" } else { "field" })),
+						}
+					}
+					confusable += 1;
+				}
+			}
+		}
+		obs.label_if(confusable > 0, "history:unknown_member_with_the_same_owner+name_text_asked_first");
 	}
 
 	// --- X -> Y -> X is the identity on injectively named classes and their descriptors
